@@ -51,6 +51,9 @@ enum Back {
     SessAndTxn(String, Sess, String, Option<fe2o3_amqp::transaction::OwnedTransaction>),
     TxnAndSender(String, fe2o3_amqp::transaction::OwnedTransaction, String, Sender),
     Txn(String, Option<fe2o3_amqp::transaction::OwnedTransaction>),
+    /// a link the application detached without closing and kept for resumption
+    DetachedS(String, fe2o3_amqp::link::sender::DetachedSender),
+    DetachedR(String, fe2o3_amqp::link::receiver::DetachedReceiver),
 }
 struct Call { id: u64, op: String, scope: String, h: JoinHandle<(J, Back)>, cancel: Option<oneshot::Sender<()>> }
 
@@ -175,6 +178,7 @@ struct PeerView {
     noi0: HashMap<u16, u32>, frames: HashMap<u16, u32>, dels: HashMap<u16, u32>, iw: HashMap<u16, u32>,
     sdc: HashMap<String, (u32, u32)>, limit: HashMap<String, u32>,
     inprog: HashMap<(u16, u32), u32>, skipping: std::collections::HashSet<(u16, u32)>,
+    det_s: HashMap<String, fe2o3_amqp::link::sender::DetachedSender>, det_r: HashMap<String, fe2o3_amqp::link::receiver::DetachedReceiver>,
     /// the previous script event could not be executed (an answer scripted for it is withheld: "needs_prev")
     last_skipped: bool,
 }
@@ -349,6 +353,8 @@ impl Exec {
             Back::SessAndTxn(sn, s, x, t) => { self.sessions.insert(sn, s); if let Some(t) = t { self.txns.insert(x, t); } }
             Back::TxnAndSender(x, t, ln, l) => { self.txns.insert(x, t); self.senders.insert(ln, l); }
             Back::Txn(x, t) => { if let Some(t) = t { self.txns.insert(x, t); } }
+            Back::DetachedS(n, d) => { self.pv.det_s.insert(n, d); }
+            Back::DetachedR(n, d) => { self.pv.det_r.insert(n, d); }
             Back::ReceiverAndDelivery(n, r, d) => { if let Some(d) = d { self.held.entry(n.clone()).or_default().push(d); } self.receivers.insert(n, r); }
         }
     }
@@ -930,7 +936,16 @@ impl Exec {
                 let err = e.get("err").and_then(|x| x.as_str()).filter(|s| !s.is_empty()).map(amqp_err);
                 let ln = l.clone();
                 let on = kind == "AOnDetach";
-                let h: JoinHandle<(J, Back)> = if let Some(mut s) = self.senders.remove(&l) {
+                // keep: a non-closing detach whose detached link is kept for a later AResume
+                let keep = e.get("keep").and_then(|x| x.as_bool()).unwrap_or(false) && !closed && !on;
+                let h: JoinHandle<(J, Back)> = if keep && self.senders.contains_key(&l) {
+                    let s = self.senders.remove(&l).unwrap();
+                    tokio::spawn(async move { match s.detach().await { Ok(d) => (ok_json(), Back::DetachedS(ln, d)), Err((d, e)) => (err_json(&e), Back::DetachedS(ln, d)) } })
+                } else if keep && self.receivers.contains_key(&l) {
+                    let r = self.receivers.remove(&l).unwrap();
+                    self.held.remove(&l);
+                    tokio::spawn(async move { match r.detach().await { Ok(d) => (ok_json(), Back::DetachedR(ln, d)), Err((d, e)) => (err_json(&e), Back::DetachedR(ln, d)) } })
+                } else if let Some(mut s) = self.senders.remove(&l) {
                     tokio::spawn(async move {
                         if on { let e = s.on_detach().await; return (err_json(&e), Back::Sender(ln, s)); }
                         let r = match (closed, err) { (true, None) => s.close().await, (true, Some(e)) => s.close_with_error(e).await, (false, None) => s.detach().await.map(|_| ()).map_err(|(_, e)| e), (false, Some(e)) => s.detach_with_error(e).await.map(|_| ()).map_err(|(_, e)| e) };
@@ -942,6 +957,21 @@ impl Exec {
                         match r { Ok(_) => (ok_json(), Back::None), Err(e) => (err_json(&e), Back::None) } })
                 } else { return self.skip(e, "no link handle"); };
                 self.start(if on { "on_detach" } else if closed { "close_link" } else { "detach" }, &format!("l:{l}"), json!({"closed": closed, "err": e.get("err").cloned().unwrap_or(json!(""))}), None, h);
+            }
+            "AResume" => {
+                // re-attach a link that was detached without closing (link resumption on the original session)
+                let l = e["l"].as_str().unwrap().to_string();
+                let ln = l.clone();
+                let h: JoinHandle<(J, Back)> = if let Some(d) = self.pv.det_s.remove(&l) {
+                    tokio::spawn(async move { match d.resume().await { Ok(s) => (ok_json(), Back::Sender(ln, s)), Err(e) => { let j = err_json(&e.kind); (j, Back::DetachedS(ln, e.detached_sender)) } } })
+                } else if let Some(d) = self.pv.det_r.remove(&l) {
+                    use fe2o3_amqp::link::receiver::ResumingReceiver;
+                    tokio::spawn(async move { match d.resume().await {
+                        Ok(ResumingReceiver::Complete(r)) | Ok(ResumingReceiver::IncompleteUnsettled(r)) | Ok(ResumingReceiver::Resume(r)) => (ok_json(), Back::Receiver(ln, r)),
+                        Err(e) => { let j = err_json(&e.kind); (j, Back::DetachedR(ln, e.detached_recver)) } } })
+                } else { return self.skip(e, "no detached link"); };
+                self.pending_attach.push(l.clone());
+                self.start("resume", &format!("l:{l}"), json!({}), None, h);
             }
             "AEnd" | "AOnEnd" => {
                 let s = e["s"].as_str().unwrap().to_string();
